@@ -127,6 +127,9 @@ Fixpoint join_bytes (sep : bytes) (l : list bytes) : bytes :=
 Definition event (kind name : bytes) (vs : list val) : bytes :=
   kind ++ [58%N] ++ name ++ [40%N] ++ join_bytes [44%N] (map render_val vs) ++ [41%N].
 
+(* the kind of a call's log entry carries a `!` when the call returned an error *)
+Definition kind_of (k : bytes) (failed : bool) : bytes := if failed then k ++ [33%N] else k.
+
 Definition log_call (c : ctx) (kind name : bytes) (vs : list val) : ctx * nat :=
   let n := ncalls c in
   (w_ncalls (w_trace c (event kind name vs :: trace c)) (S n), n).
@@ -747,7 +750,8 @@ Definition call_cond (c : ctx) (name : bytes) (al : list arg) : ctx * option boo
   | None => (c, None)
   | Some f =>
       let '(c, a) := collect_args c al [] in
-      let '(c, n) := log_call c (bs "cond") name a in
+      let failed := match snd (f (ncalls c) a) with Some _ => true | None => false end in
+      let '(c, n) := log_call c (kind_of (bs "cond") failed) name a in
       let '(b, e) := f n a in
       (match e with Some x => w_cerr c (Some x) | None => c end, Some b)
   end.
@@ -1010,7 +1014,8 @@ Fixpoint run_mods (ms : list modn) (c : ctx) (raw : val) : ctx * val :=
             match u_mod U (m_id m) with
             | None => (c, None, Some EUnsupported)
             | Some f =>
-                let '(c, n) := log_call c (bs "mod") (m_id m) (deref c raw :: a) in
+                let failed := match f (ncalls c) (deref c raw) a with inr _ => true | inl _ => false end in
+                let '(c, n) := log_call c (kind_of (bs "mod") failed) (m_id m) (deref c raw :: a) in
                 match f n (deref c raw) a with
                 | inl v => (c, Some v, None)
                 | inr x => (c, None, Some x)
@@ -1123,7 +1128,8 @@ Fixpoint follow (fuel : nat) (r : node) (c : ctx) {struct fuel} : ctx * option e
       match u_cb U (src r) with
       | None => (c, Some EUnsupported)
       | Some fn =>
-          let '(c, n) := log_call c (bs "cb") (src r) a in
+          let failed := match fn (ncalls c) a with Some _ => true | None => false end in
+          let '(c, n) := log_call c (kind_of (bs "cb") failed) (src r) a in
           (c, fn n a)
       end
     else if getter r then
@@ -1136,7 +1142,8 @@ Fixpoint follow (fuel : nat) (r : node) (c : ctx) {struct fuel} : ctx * option e
             match u_get U (src r) with
             | None => (c, None, Some EUnsupported)
             | Some fn =>
-                let '(c, n) := log_call c (bs "get") (src r) a in
+                let failed := match fn (ncalls c) a with inr _ => true | inl _ => false end in
+                let '(c, n) := log_call c (kind_of (bs "get") failed) (src r) a in
                 match fn n a with
                 | inl v => (c, Some v, None)
                 | inr x => (c, None, Some x)
